@@ -8,6 +8,7 @@ From Ragc Require Import Mach Consts_kmer Consts_segment Consts_pipeline Consts_
 From Ragc Require Import Kmer Segment Segment_proofs Pipeline Pipeline_proofs.
 From Ragc Require Import SegReader GroupStore GroupStore_proofs Compose_codecs.
 From Ragc Require GroupStore_rules.
+From Ragc Require Details Collection Collection_proofs.
 Open Scope N_scope.
 
 (* ---- the two descriptor records (collection.rs SegmentDesc as the catalogue keeps it / as get_segment reads it) *)
@@ -315,7 +316,7 @@ Section FromStore.
       apply all_emit_in in Hem. destruct Hem as (i & s & c & pc & Hp & E). inversion E; subst g sg; clear E.
       exists (r_desc (reg_of (store_addr pushes st) i s c pc)). split.
       + apply in_map_iff. exists (reg_of (store_addr pushes st) i s c pc). split.
-        * f_equal. apply (reg_of_fields (store_addr pushes st) i s c pc).
+        * reflexivity.
         * apply Hin. exists i, s, c, pc. auto.
       + unfold reg_of, store_addr. reflexivity.
     - intros d b Hdb. apply in_map_iff in Hdb. destruct Hdb as (r & E & Hr). inversion E; subst d b; clear E.
@@ -362,4 +363,322 @@ Proof.
   destruct Hrel as [Hfed Haddr].
   exact (end_to_end_roundtrip_proof zc zd Hz ecn k spl segsize dec _ sched mml level samples coll stored ops st
            Hk Hin Hdec Hsched Hc Hdom Hfed Hrun Haddr).
+Qed.
+
+(* ---- schedules: any split of the emitted pieces into consecutive rounds, each round handing every group of
+   [groups] its pieces (one op per group and round), carries the pieces (non-vacuity of [ops_carry]) *)
+Definition ops_by_group (groups : list N) (emitted : list (N * seg_in)) : list op :=
+  map (fun g => (g, map snd (filter (fun x => fst x =? g) emitted))) groups.
+Definition ops_rounds (groups : list N) (rounds : list (list (N * seg_in))) : list op :=
+  flat_map (ops_by_group groups) rounds.
+
+Lemma segs_of_app a b g : segs_of (a ++ b) g = segs_of a g ++ segs_of b g.
+Proof. unfold segs_of. apply flat_map_app. Qed.
+
+Lemma segs_of_by_group em : forall groups g, NoDup groups ->
+  segs_of (ops_by_group groups em) g =
+  if existsb (fun g' => g' =? g) groups then map snd (filter (fun x => fst x =? g) em) else [].
+Proof.
+  induction groups as [|g0 tl IH]; intros g ND; [reflexivity|]. inversion ND as [|? ? Hn ND']; subst.
+  unfold ops_by_group. cbn [map]. change (map _ tl) with (ops_by_group tl em).
+  change (segs_of ((g0, ?b) :: ?t) g) with ((if g0 =? g then b else []) ++ segs_of t g).
+  unfold segs_of at 1. cbn [flat_map fst snd existsb]. fold (segs_of (ops_by_group tl em) g). rewrite (IH g ND').
+  destruct (N.eqb_spec g0 g) as [->|Hne]; cbn [orb].
+  - assert (E : existsb (fun g' => g' =? g) tl = false).
+    { destruct (existsb (fun g' => g' =? g) tl) eqn:E; [|reflexivity]. apply existsb_exists in E.
+      destruct E as (x & Hx & Ex). apply N.eqb_eq in Ex. subst x. contradiction. }
+    rewrite E. apply app_nil_r.
+  - reflexivity.
+Qed.
+
+Lemma filter_none {A} (f : A -> bool) l : (forall x, In x l -> f x = false) -> filter f l = [].
+Proof.
+  induction l as [|x l IH]; intro H; [reflexivity|]. cbn [filter]. rewrite (H x (or_introl eq_refl)).
+  apply IH. intros y Hy. apply H. right. exact Hy.
+Qed.
+
+Lemma ops_rounds_carry : forall groups rounds, NoDup groups ->
+  (forall x, In x (concat rounds) -> In (fst x) groups) ->
+  ops_carry (concat rounds) (ops_rounds groups rounds).
+Proof.
+  intros groups rounds ND. induction rounds as [|r rounds IH]; intros Hall g.
+  - apply Permutation_refl.
+  - cbn [ops_rounds flat_map concat]. fold (ops_rounds groups rounds). rewrite segs_of_app, filter_app, map_app.
+    apply Permutation_app; [|apply IH; intros x Hx; apply Hall; cbn [concat]; apply in_or_app; right; exact Hx].
+    rewrite (segs_of_by_group r groups g ND). destruct (existsb (fun g' => g' =? g) groups) eqn:E; [apply Permutation_refl|].
+    rewrite filter_none; [apply Permutation_refl|]. intros x Hx. apply N.eqb_neq. intro Ex.
+    assert (In (fst x) groups) by (apply Hall; cbn [concat]; apply in_or_app; left; exact Hx).
+    assert (E' : existsb (fun g' => g' =? g) groups = true).
+    { apply existsb_exists. exists (fst x). split; [assumption|apply N.eqb_eq; exact Ex]. }
+    rewrite E' in E. discriminate.
+Qed.
+
+(* ---- a decidable form of [pieces_in_dom] (for the examples) *)
+Definition pieces_in_domb (mml : N) (stored : list (Pipeline.seg_desc * list N)) : bool :=
+  forallb (fun x : Pipeline.seg_desc * list N =>
+    let (d, b) := x in
+    forallb (fun c => c <=? 30) b &&
+    (if Pipeline.d_group d <? 16 then lenN b <? two32
+     else (4 <=? mml) && negb (is_nil b) &&
+          forallb (fun y : Pipeline.seg_desc * list N =>
+                     negb (Pipeline.d_group (fst y) =? Pipeline.d_group d) ||
+                     (lenN (snd y) + lenN b + mml <? 2147483648)) stored)) stored.
+
+Lemma pieces_in_domb_ok mml stored : pieces_in_domb mml stored = true -> pieces_in_dom mml stored.
+Proof.
+  intros H d b Hin. unfold pieces_in_domb in H. rewrite forallb_forall in H. specialize (H (d, b) Hin).
+  cbn beta iota in H. apply andb_true_iff in H. destruct H as [Ha Hb]. rewrite forallb_forall in Ha. split.
+  - apply Forall_forall. intros c Hc. apply N.leb_le. apply Ha. exact Hc.
+  - destruct (N.ltb_spec (Pipeline.d_group d) 16) as [Hg|Hg].
+    + split; [intros _; apply N.ltb_lt; exact Hb|intro; lia].
+    + split; [intro; lia|]. intros _. apply andb_true_iff in Hb. destruct Hb as [Hb Hc].
+      apply andb_true_iff in Hb. destruct Hb as [Hm Hn]. split; [apply N.leb_le; exact Hm|]. split.
+      * destruct b; discriminate.
+      * intros d' b' Hin' Eg. rewrite forallb_forall in Hc. specialize (Hc (d', b') Hin'). cbn [fst snd] in Hc.
+        rewrite Eg, N.eqb_refl in Hc. cbn [negb orb] in Hc. apply N.ltb_lt. exact Hc.
+Qed.
+
+(* =====================================================================================================
+   [pieces_in_dom] from hypotheses on the INPUT: every piece is a (possibly reverse-complemented) contiguous
+   part of its contig, so its symbols are the contig's (rc_dec keeps 0..30 inside 0..30), it is not longer than
+   the contig, and it is non-empty when the contig is. *)
+Definition within (x l : list N) : Prop :=
+  (forall P : N -> Prop, Forall P l -> Forall P x) /\ (length x <= length l)%nat.
+
+Lemma within_refl l : within l l.
+Proof. split; auto. Qed.
+Lemma within_trans x y z : within x y -> within y z -> within x z.
+Proof. intros [A1 A2] [B1 B2]. split; [intros P H; apply A1, B1, H|lia]. Qed.
+Lemma within_firstn n l : within (firstn n l) l.
+Proof.
+  split; [|rewrite firstn_length; lia]. intros P H. rewrite <- (firstn_skipn n l) in H.
+  apply Forall_app in H. tauto.
+Qed.
+Lemma within_skipn n l : within (skipn n l) l.
+Proof.
+  split; [|rewrite skipn_length; lia]. intros P H. rewrite <- (firstn_skipn n l) in H.
+  apply Forall_app in H. tauto.
+Qed.
+
+Lemma chain_within ws contig spl kN a f fd l : chain ws contig spl kN a f fd l ->
+  forall s, In s l -> within (sdata s) contig.
+Proof.
+  induction 1 as [a f fd|a f fd b run p tl H1 H2 H3 H4 H5 H6 H7 H8 IH]; intros s Hs.
+  - destruct Hs as [<-|[]]. cbn [sdata]. apply within_skipn.
+  - destruct Hs as [<-|Hs]; [|apply IH; exact Hs]. cbn [sdata]. unfold slice.
+    eapply within_trans; [apply within_firstn|apply within_skipn].
+Qed.
+
+Lemma segs_within contig spl k s : 1 <= k <= 32 -> In s (split_gen true contig spl k) -> within (sdata s) contig.
+Proof. intros Hk Hs. exact (chain_within _ _ _ _ _ _ _ _ (split_chain true contig spl k Hk) s Hs). Qed.
+
+Lemma seg_fwd_within k s d x : In x (seg_fwd k s d) -> within x (sdata s).
+Proof.
+  unfold seg_fwd. destruct d as [o|o pos lf rf|o f|o f]; cbn [In]; try (intros [<-|[]]; apply within_refl).
+  destruct (should_reverse s o); intros [<-|[<-|[]]]; first [apply within_firstn|apply within_skipn].
+Qed.
+
+Lemma seg_fwd_nonempty k s d x : (1 <= k)%nat -> decision_okb k s d = true -> sdata s <> [] ->
+  In x (seg_fwd k s d) -> x <> [].
+Proof.
+  intros Hk Hd Hne Hx. destruct d as [o|o pos lf rf|o f|o f]; try (destruct Hx as [<-|[]]; exact Hne).
+  destruct (split_fwd k s o pos lf rf Hk Hd) as (A & B & Ef & HA & HB & _). rewrite Ef in Hx.
+  destruct Hx as [<-|[<-|[]]]; intros ->; cbn in *; lia.
+Qed.
+
+Lemma seg_pieces_unorient k s d n ps pc : seg_pieces k s d n = Ok ps -> In pc ps -> In (unorient pc) (seg_fwd k s d).
+Proof.
+  intros E Hpc. destruct (seg_pieces_spec _ _ _ _ _ E) as (ps' & P & _ & Up).
+  rewrite <- Up. apply in_map. apply (Permutation_in _ P). exact Hpc.
+Qed.
+
+Lemma contig_pieces_in k dec : forall segs j n ps, contig_pieces k segs dec j n = Ok ps ->
+  forall pc, In pc ps -> exists i s n' ps', nth_error segs i = Some s /\
+                                           seg_pieces k s (dec (j + i)%nat) n' = Ok ps' /\ In pc ps'.
+Proof.
+  induction segs as [|s rest IH]; intros j n ps E pc Hpc; cbn [contig_pieces] in E.
+  - inversion E; subst. contradiction.
+  - destruct (seg_pieces k s (dec j) n) as [ps0| |] eqn:E0; cbn [obnd] in E; try discriminate.
+    destruct (contig_pieces k rest dec (S j) (n + part_incr (dec j))) as [more| |] eqn:E1; cbn [obnd] in E;
+      try discriminate.
+    inversion E; subst ps; clear E. apply in_app_or in Hpc. destruct Hpc as [Hpc|Hpc].
+    + exists 0%nat, s, n, ps0. rewrite Nat.add_0_r. auto.
+    + destruct (IH _ _ _ E1 pc Hpc) as (i & s' & n' & ps' & Hn & Es & Hin).
+      exists (S i), s', n', ps'. replace (j + S i)%nat with (S j + i)%nat by lia. auto.
+Qed.
+
+Lemma rc_dec_le30 : forall x, x <= 30 -> rc_dec x <= 30.
+Proof.
+  intros x Hx. remember (N.to_nat x) as n eqn:En. assert (E : x = N.of_nat n) by lia. subst x. clear En.
+  assert (Hn : (n < 31)%nat) by lia. clear Hx.
+  do 31 (destruct n as [|n]; [vm_compute; discriminate|]). lia.
+Qed.
+
+Lemma unorient_data pc : p_data pc = if p_rc pc then rcs (unorient pc) else unorient pc.
+Proof. unfold unorient. destruct (p_rc pc); [rewrite rcs_invol|]; reflexivity. Qed.
+
+Lemma rcs_Forall (P : N -> Prop) l : (forall x, P x -> P (rc_dec x)) -> Forall P l -> Forall P (rcs l).
+Proof.
+  intros Hc H. unfold reverse_complement_segment. apply Forall_forall. intros y Hy. apply in_map_iff in Hy.
+  destruct Hy as (x & <- & Hx). apply Hc. rewrite Forall_forall in H. apply H. apply in_rev. exact Hx.
+Qed.
+
+(* one piece of contig [data] *)
+Lemma piece_facts k spl segsize dec i data ps pc : 1 <= k <= 32 ->
+  (forall j sg, nth_error (split_at_splitters_with_size data spl k segsize) j = Some sg ->
+                decision_okb (N.to_nat k) sg (dec i j) = true) ->
+  pieces_of k spl segsize dec i data = Ok ps -> In pc ps ->
+  (forall P : N -> Prop, (forall x, P x -> P (rc_dec x)) -> Forall P data -> Forall P (p_data pc)) /\
+  (length (p_data pc) <= length data)%nat /\
+  (data <> [] -> p_data pc <> []).
+Proof.
+  intros Hk Hd E Hpc. unfold pieces_of in E.
+  destruct (contig_pieces_in _ _ _ _ _ _ E pc Hpc) as (j & s & n' & ps' & Hn & Es & Hin). cbn [Nat.add] in Es.
+  pose proof (seg_pieces_unorient _ _ _ _ _ _ Es Hin) as Hu.
+  assert (Hs : In s (split_gen true data spl k)) by (apply nth_error_In with j; exact Hn).
+  pose proof (within_trans _ _ _ (seg_fwd_within _ _ _ _ Hu) (segs_within data spl k s Hk Hs)) as [W1 W2].
+  rewrite (unorient_data pc). split; [|split].
+  - intros P Hc HP. destruct (p_rc pc); [apply rcs_Forall; [exact Hc|]|]; apply W1; exact HP.
+  - destruct (p_rc pc); [rewrite rcs_length|]; exact W2.
+  - intro Hne. assert (Hx : unorient pc <> []).
+    { apply (seg_fwd_nonempty (N.to_nat k) s (dec i j)); [lia|exact (Hd j s Hn)| |exact Hu].
+      pose proof (segments_nonempty_proof true data spl k Hk Hne) as F. rewrite Forall_forall in F. exact (F s Hs). }
+    destruct (p_rc pc); [|exact Hx]. intro E0. apply Hx.
+    apply (f_equal (@length N)) in E0. rewrite rcs_length in E0. destruct (unorient pc); [reflexivity|discriminate].
+Qed.
+
+(* hypotheses on the input: symbol codes 0..30 (the FASTA alphabet maps to 0..15 and 30), contig lengths *)
+Definition inputs_in_dom (mml : N) (pushes : list push) : Prop :=
+  forall s c data, In (s, c, data) pushes ->
+    Forall (fun x => x <= 30) data /\ 2 * lenN data + mml < 2147483648.
+(* the oracle's group choice never sends a piece of an EMPTY contig to an LZ group (in the code an LZ group is
+   keyed by a k-mer pair with at least one k-mer present, so its segments have at least k symbols) *)
+Definition lz_contigs_nonempty (pushes : list push) (grp : nat -> nat -> N) : Prop :=
+  forall i s c data part, nth_error pushes i = Some (s, c, data) -> 16 <= grp i part -> data <> [].
+
+Theorem pieces_in_dom_from_inputs_proof :
+  forall k spl segsize dec addr pushes regs mml,
+  1 <= k <= 32 -> 4 <= mml ->
+  decisions_ok k spl segsize dec pushes ->
+  inputs_in_dom mml pushes ->
+  lz_contigs_nonempty pushes (fun i part => fst (addr i part)) ->
+  all_regs k spl segsize dec addr 0 pushes = Ok regs ->
+  pieces_in_dom mml (map (fun r => (r_desc r, r_data r)) regs).
+Proof.
+  intros k spl segsize dec addr pushes regs mml Hk Hm Hdec Hdom Hlz Hregs.
+  pose proof (all_regs_in k spl segsize dec (fun _ _ => 0) addr pushes 0%nat regs Hregs) as Hin.
+  assert (F : forall d b, In (d, b) (map (fun r => (r_desc r, r_data r)) regs) ->
+            exists i s c data part, nth_error pushes i = Some (s, c, data) /\
+              Pipeline.d_group d = fst (addr i part) /\
+              Forall (fun x => x <= 30) b /\ lenN b <= lenN data /\ (data <> [] -> b <> [])).
+  { intros d b Hdb. apply in_map_iff in Hdb. destruct Hdb as (r & E & Hr). inversion E; subst d b; clear E.
+    apply Hin in Hr. destruct Hr as (i & s & c & pc & (data & ps & _ & Hn & Ep & Hpc) & ->).
+    rewrite Nat.sub_0_r in Hn.
+    destruct (piece_facts k spl segsize dec i data ps pc Hk (fun j sg Hj => Hdec i s c data j sg Hn Hj) Ep Hpc)
+      as (Fa & Fl & Fn).
+    exists i, s, c, data, (p_part pc). split; [exact Hn|]. unfold reg_of. destruct (addr i (p_part pc)) as [g id].
+    cbn [r_desc r_data Pipeline.d_group fst]. split; [reflexivity|]. split; [|split; [unfold lenN; lia|exact Fn]].
+    apply Fa; [exact rc_dec_le30|]. apply nth_error_In in Hn. exact (proj1 (Hdom s c data Hn)). }
+  intros d b Hdb. destruct (F d b Hdb) as (i & s & c & data & part & Hn & Eg & Fa & Fl & Fn).
+  pose proof (proj2 (Hdom s c data (nth_error_In _ _ Hn))) as Hl.
+  split; [exact Fa|]. split; [intros _; unfold two32; lia|].
+  intro Hg. split; [exact Hm|]. split.
+  - apply Fn. apply (Hlz i s c data part Hn). cbn beta. rewrite <- Eg. exact Hg.
+  - intros d' b' Hdb' _. destruct (F d' b' Hdb') as (i' & s' & c' & data' & part' & Hn' & _ & _ & Fl' & _).
+    pose proof (proj2 (Hdom s' c' data' (nth_error_In _ _ Hn'))) as Hl'. lia.
+Qed.
+
+(* ---- end to end, hypotheses on the input only *)
+Theorem end_to_end_inputs_proof :
+  forall zc zd, zstd_ok zc zd ->
+  forall ecn k spl segsize dec grp sched mml level
+         (samples : list (name * list (name * list N))) ops st coll stored,
+  1 <= k <= 32 -> 4 <= mml ->
+  inputs_ok samples ->
+  inputs_in_dom mml (pushes_of samples) ->
+  decisions_ok k spl segsize dec (pushes_of samples) ->
+  lz_contigs_nonempty (pushes_of samples) grp ->
+  (forall l, Permutation l (sched l)) ->
+  ops_carry (all_emit k spl segsize dec grp 0 (pushes_of samples)) ops ->
+  c_run zc mml level ops = Ok st ->
+  create ecn k spl segsize dec (store_addr k spl segsize dec grp (pushes_of samples) st) sched (pushes_of samples)
+    = Ok (coll, stored) ->
+  contig_names_ok samples /\ extract_all (store_get zc zd mml level st) k coll = Ok samples.
+Proof.
+  intros zc zd Hz ecn k spl segsize dec grp sched mml level samples ops st coll stored
+         Hk Hm Hin Hdom Hdec Hlz Hsched Hcarry Hrun Hc.
+  apply (end_to_end_store_addr_proof zc zd Hz ecn k spl segsize dec grp sched mml level samples ops st coll stored);
+    try assumption.
+  pose proof Hc as Hc'. unfold create in Hc'.
+  destruct (register_all ecn [] (pushes_of samples)) as [coll0| |]; cbn [obnd] in Hc'; try discriminate.
+  destruct (all_regs k spl segsize dec _ 0 (pushes_of samples)) as [regs| |] eqn:Ea; cbn [obnd] in Hc'; try discriminate.
+  inversion Hc'; subst coll stored; clear Hc'.
+  apply (pieces_in_dom_from_inputs_proof k spl segsize dec (store_addr k spl segsize dec grp (pushes_of samples) st)
+           (pushes_of samples) regs mml Hk Hm Hdec Hdom); [|exact Ea].
+  exact Hlz.
+Qed.
+
+(* =====================================================================================================
+   step 4: the catalogue codec (C03) threaded through.  The catalogue the writer built ([coll] of create) is
+   converted to Collection.v's sample list, serialised in batches ([store_all]) and reloaded ([load_all]); the
+   reader extracts from the RELOADED catalogue.
+   Gap that remains: Pipeline.v's register_sample_contig / add_segment_placed and Collection.v's are two
+   transcriptions of the same Rust functions on different record types; they are related here only through the
+   conversion [cat_of] of the finished catalogue, not call by call. *)
+Definition cat_seg (d : Pipeline.seg_desc) : Details.seg :=
+  Details.mkSeg (Pipeline.d_group d) (Pipeline.d_id d) (Pipeline.d_rc d) (Pipeline.d_len d).
+Definition seg_cat (x : Details.seg) : Pipeline.seg_desc :=
+  mkDesc (Details.sg x) (Details.si x) (Details.src x) (Details.sl x).
+Definition cat_of (c : Pipeline.collection) : list Collection.sample :=
+  map (fun s => Collection.mkSample (fst s)
+                  (map (fun ct => Collection.mkContig (fst ct) (map cat_seg (snd ct))) (snd s))) c.
+Definition of_cat (ss : list Collection.sample) : Pipeline.collection :=
+  map (fun s => (Collection.sname s,
+                 map (fun ct => (Collection.cname ct, map seg_cat (Collection.csegs ct))) (Collection.scontigs s))) ss.
+
+Lemma map_id_ext {A} (f : A -> A) l : (forall x, f x = x) -> map f l = l.
+Proof. intro H. rewrite (map_ext _ _ H). apply map_id. Qed.
+
+Lemma of_cat_of c : of_cat (cat_of c) = c.
+Proof.
+  unfold of_cat, cat_of. rewrite map_map. apply map_id_ext. intros [sn cs]. cbn [Collection.sname Collection.scontigs fst snd].
+  f_equal. rewrite map_map. apply map_id_ext. intros [cn ds]. cbn [Collection.cname Collection.csegs fst snd].
+  f_equal. rewrite map_map. apply map_id_ext. intros [g i r l]. reflexivity.
+Qed.
+
+Theorem end_to_end_catalogue_proof :
+  forall zc zd, zstd_ok zc zd -> (forall l x, zc l x <> []) ->
+  forall ecn k spl segsize dec grp sched mml level
+         (samples : list (name * list (name * list N))) ops st coll stored,
+  1 <= k <= 32 -> 4 <= mml ->
+  inputs_ok samples ->
+  inputs_in_dom mml (pushes_of samples) ->
+  decisions_ok k spl segsize dec (pushes_of samples) ->
+  lz_contigs_nonempty (pushes_of samples) grp ->
+  (forall l, Permutation l (sched l)) ->
+  ops_carry (all_emit k spl segsize dec grp 0 (pushes_of samples)) ops ->
+  c_run zc mml level ops = Ok st ->
+  create ecn k spl segsize dec (store_addr k spl segsize dec grp (pushes_of samples) st) sched (pushes_of samples)
+    = Ok (coll, stored) ->
+  forall (ss bs : N) (c : Collection.coll),
+  ss + k <= 2147483648 -> 0 < bs ->
+  Collection.segment_size c = ss -> Collection.kmer_length c = k ->
+  Collection.samples c = cat_of coll ->
+  lenN (Collection.samples c) < 4294967296 ->
+  Forall (fun s => Forall (fun b => 1 <= b < 128) (Collection.sname s)) (Collection.samples c) ->
+  Forall (Collection_proofs.batch_ok zc ss k)
+         (Collection_proofs.chunks (length (Collection.samples c)) (N.to_nat bs) (Collection.samples c)) ->
+  exists cw a cr,
+    Collection.store_all zc bs c Collection.arch_empty = Ok (cw, a) /\
+    Collection.load_all zd ss k a = Ok cr /\
+    extract_all (store_get zc zd mml level st) k (of_cat (Collection.samples cr)) = Ok samples.
+Proof.
+  intros zc zd Hz Hne ecn k spl segsize dec grp sched mml level samples ops st coll stored
+         Hk Hm Hin Hdom Hdec Hlz Hsched Hcarry Hrun Hc ss bs c Hss Hbs Es Ek Ec Hlen Hnames Hb.
+  destruct (Collection_proofs.batches_roundtrip_proof zc zd (proj1 Hz) Hne ss k Hss bs c Hbs Es Ek Hlen Hnames Hb)
+    as (cw & a & cr & Hst & _ & _ & Hld & Hsame & _).
+  exists cw, a, cr. split; [exact Hst|]. split; [exact Hld|].
+  rewrite Hsame, Ec, of_cat_of.
+  exact (proj2 (end_to_end_inputs_proof zc zd Hz ecn k spl segsize dec grp sched mml level samples ops st coll stored
+                  Hk Hm Hin Hdom Hdec Hlz Hsched Hcarry Hrun Hc)).
 Qed.
